@@ -65,15 +65,24 @@ class AssemblerError(Exception):
         return '{}\nAssemblerError: {}'.format(self.line, self.message)
 
 
+def printable(value):
+    # str() of an int with more than 4300 digits raises ValueError (Python 3.11+);
+    # a value like that is out of range everywhere and gets reported where it is used
+    try:
+        return str(value)
+    except ValueError:
+        return '<{} too large to print>'.format(type(value).__name__)
+
+
 def log_constant(pass_name, item, value):
     s = '{}: file {}, line {}: "{}" -> "{} = 0x{:08x} ({})"'
-    s = s.format(pass_name, os.path.basename(item.line.file), item.line.number, item, item.name, value, value)
+    s = s.format(pass_name, os.path.basename(item.line.file), item.line.number, printable(item), item.name, value, printable(value))
     log.info(s)
 
 
 def log_conversion(pass_name, item_a, item_b):
     s = '{}: file {}, line {}: "{}" -> "{}"'
-    s = s.format(pass_name, os.path.basename(item_a.line.file), item_a.line.number, item_a, item_b)
+    s = s.format(pass_name, os.path.basename(item_a.line.file), item_a.line.number, printable(item_a), printable(item_b))
     log.info(s)
 
 
@@ -3254,7 +3263,7 @@ def resolve_sequences(items):
             try:
                 value = struct.pack(fmt, value)
             except struct.error as e:
-                raise AssemblerError('{}: {}'.format(e, value), item.line)
+                raise AssemblerError('{}: {}'.format(e, printable(value)), item.line)
             data.extend(value)
         blob = Blob(item.line, bytes(data))
         new_items.append(blob)
@@ -3301,7 +3310,7 @@ def resolve_packs(items):
         try:
             data = struct.pack(item.fmt, item.imm)
         except struct.error as e:
-            raise AssemblerError('{}: {}'.format(e, item.imm), item.line)
+            raise AssemblerError('{}: {}'.format(e, printable(item.imm)), item.line)
         blob = Blob(item.line, data)
         new_items.append(blob)
 
